@@ -92,7 +92,7 @@ func parsePipeExpr(expr string) pipeExpr {
 
 	if !strings.Contains(expr, "|") {
 		// Check if it's a function call (including no-arg functions like "fn()")
-		if matches := filterRe.FindStringSubmatch(trimmed); matches != nil && helpers.IsIdentifier(matches[1]) {
+		if matches := filterRe.FindStringSubmatch(trimmed); matches != nil && helpers.IsIdentifier(matches[1]) && !helpers.IsKeywordLiteral(matches[1]) {
 			return pipeExpr{
 				initial: "",
 				segments: []pipeSegment{{
